@@ -488,6 +488,42 @@ func GenAt(t *rapid.T, anywhere bool, midnightUTC bool) Case {
 			u += gap
 		}
 	}
+	// Epochs, as receivers send them: every constellation reports the same instants (GPS and Galileo then
+	// carry identical timestamps, BeiDou's differ by 14 s, GLONASS's by three hours less the leap seconds).
+	epochMode := false
+	if rapid.IntRange(0, 3).Draw(t, "epochs") == 2 {
+		epochMode = true
+		leader := -1
+		for cc := 0; cc < 4; cc++ {
+			if len(seqs[cc]) > 0 {
+				leader = cc
+				break
+			}
+		}
+		for cc2 := leader + 1; leader >= 0 && cc2 < 4; cc2++ {
+			if len(seqs[cc2]) == 0 {
+				continue
+			}
+			ws2 := WeekStartMs(cc2, baseMs)
+			first2, end2 := ws2, ws2+msWeek-1
+			if !anywhere {
+				first2 = startMsCeil
+			}
+			var mirrored []Obs
+			for _, ob := range seqs[leader] {
+				if ob.Illegal != 0 || ob.Foreign != 0 {
+					continue
+				}
+				if len(mirrored) == 0 && (ob.U < first2 || ob.U > end2) {
+					continue // the first one must lie in this constellation's week of the start time
+				}
+				mirrored = append(mirrored, Obs{C: cc2, U: ob.U, MSM7: ob.MSM7})
+			}
+			if len(mirrored) > 0 {
+				seqs[cc2] = mirrored
+			}
+		}
+	}
 	// merge by a drawn interleaving
 	idx := [4]int{}
 	for {
@@ -501,7 +537,14 @@ func GenAt(t *rapid.T, anywhere bool, midnightUTC bool) Case {
 			break
 		}
 		cc := avail[0]
-		if len(avail) > 1 {
+		if epochMode {
+			// epoch by epoch: the constellation whose next observation is the earliest
+			for _, x := range avail {
+				if seqs[x][idx[x]].U < seqs[cc][idx[cc]].U {
+					cc = x
+				}
+			}
+		} else if len(avail) > 1 {
 			cc = rapid.SampledFrom(avail).Draw(t, "next")
 		}
 		c.Msgs = append(c.Msgs, seqs[cc][idx[cc]])
